@@ -347,6 +347,34 @@ c.raises(('exceptions.InvalidField', 'exceptions.CryptographicFailure'))
 c.may_raise_anything()        # library errors: mapped by the wrapper this function is decorated with
 c.trace("kdf-built-from-the-requests-parameters", t_kdf)
 c.scope('trace.kdf', 'C06')
+
+
+def t_derivation_is_a_function_of_its_parameters(ev, outcome, exc, path, I):
+    """A derived value depends on the stated parameters only: no randomness is drawn while deriving,
+    except when the caller itself passed no IV at all (None) to the ENCRYPT method - an empty IV is
+    an IV the caller stated, and the request handler always states one."""
+    iv = I.ghost_globals.get('__iv__')
+    for e in ev:
+        if e[0] == 'call' and e[1].endswith(('._encrypt_symmetric', '.encrypt', '_report_library_errors.wrapper')) \
+                and len(e) > 2:
+            given = e[2]
+            if 'iv_nonce' not in given:
+                kw = given.get('kwargs')
+                given = kw if isinstance(kw, dict) else {}
+            if 'iv_nonce' not in given:
+                return "the cipher is called without the IV being identifiable (positional call?)"
+            if given.get('iv_nonce') is not iv:
+                return ("the cipher is not given the IV the caller stated (an empty IV replaced by none makes the "
+                        "cipher draw a random one: the derived value is no longer a function of the parameters)")
+    rnd = [e for e in _ext(ev) if e[1].endswith('urandom')]
+    if rnd and iv is not None:
+        return "randomness is drawn while deriving a key although the caller stated an IV (possibly empty)"
+    return True
+
+
+c.let('__iv__', 'iv_nonce')
+c.trace("derived-value-is-a-function-of-the-stated-parameters", t_derivation_is_a_function_of_its_parameters)
+c.scope('trace.derived-value', 'C06')
 c.max_paths = 40000
 c.split_by = [('oneof:derivation_data', 2), ('oneof:key_material', 2), ('oneof:salt', 2), ('oneof:iv_nonce', 2)]
 
